@@ -170,6 +170,8 @@ pub fn scenario(p: &GenParams) -> BoxedStrategy<Scenario> {
             sc.fps = fps;
             // mostly 4 input values; sometimes 2 or 6; rarely constant inputs (every prediction right)
             sc.vals = [4u8, 4, 4, 4, 2, 6, 4, 1][(seed >> 57) as usize % 8];
+            // a quarter of the games keep their snapshots themselves (cells get a checksum but no data)
+            sc.own_snapshots = (seed >> 50) % 4 == 0;
             // ops
             let mut outages = 0;
             let mut pauses = 0;
